@@ -10,8 +10,8 @@ from contracts import C16
 
 LEVEL = "other"
 MANIFEST_ENTRY = {
-    "text": "Serializer contract (MutableFileNode._do_serialized and MutableFileVersion._do_serialized, run under the Deferred-chain model with the operations' own Deferreds left pending, i.e. for operations of any duration): two requests queued while an earlier operation is still running are started strictly in request order; the second is not started until the first one's Deferred has fired; when the first fails, its caller receives the failure and the second is still started, because the failure is absorbed and the serializer chain is left in the success state -- the invariant the contract assumes on entry (established by defer.succeed(None) in the constructors) and proves on exit; each caller receives exactly its own operation's result. Entry points: download_best_version, overwrite, upload, modify, get_servermap of MutableFileNode and overwrite, modify, update, read of MutableFileVersion all go through _do_serialized (checked on the AST every run). One node object per capability string within a client, so that these requests meet in one serializer: NodeMaker node-cache contract of C16, re-run here.",
-    "note": "Twisted's rule that a callback returning a Deferred pauses the chain until it fires is the trusted model (contracts.lib.fire_chain); foolscap eventually() is a recording stub. That directory edits built on modify() do not lose each other's changes additionally needs modify()'s read-modify-write to run inside one serialized operation, which is what the entry-point obligation states; the retry loop of _modify_and_retry is not under contract.",
+    "text": "Serializer contract (MutableFileNode._do_serialized and MutableFileVersion._do_serialized, run under the Deferred-chain model with the operations' own Deferreds left pending, i.e. for operations of any duration): two requests queued while an earlier operation is still running are started strictly in request order; the second is not started until the first one's Deferred has fired; when the first fails, its caller receives the failure and the second is still started, because the failure is absorbed and the serializer chain is left in the success state -- the invariant the contract assumes on entry (established by defer.succeed(None) in the constructors) and proves on exit; each caller receives exactly its own operation's result. The retry loop of modify() (MutableFileVersion._modify_and_retry) keeps the operation's Deferred unfired while a retry after an UncoordinatedWriteError is running, so the serializer cannot start the next request in the middle of a modify. Entry points: download_best_version, overwrite, upload, modify, get_servermap of MutableFileNode and overwrite, modify, update, read of MutableFileVersion all go through _do_serialized (checked on the AST every run). One node object per capability string within a client, so that these requests meet in one serializer: two create_from_cap lookups of the same string return the identical node for all 8 mutable capability kinds (SDMF and MDMF, file and directory, read-write and read-only), and never a node of another cap (NodeMaker node-cache contract of C16, re-run here).",
+    "note": "Twisted's rule that a callback returning a Deferred pauses the chain until it fires is the trusted model (contracts.lib.fire_chain); foolscap eventually() is a recording stub. That directory edits built on modify() do not lose each other's changes additionally needs modify()'s read-modify-write to run inside one serialized operation, which is what the entry-point obligation states; only the first retry of _modify_and_retry is explored.",
     "technique": "contract-based deductive verification (pyvc VCs + z3) over a Deferred-chain model; entry points by AST check",
 }
 EXPLANATION = "Queue discipline of the serializer Deferred."
@@ -151,5 +151,138 @@ class EntryPoints(Spec):
         return g
 
 
+class ModifyRetry(Spec):
+    """MutableFileVersion._modify_and_retry: while a retry after an uncoordinated-write error is still running, the
+    operation's Deferred has not fired -- so the serializer does not start the next request"""
+    file = FN
+    qualname = "MutableFileVersion._modify_and_retry"
+    cross_check = 0
+    raises = ()
+
+    def inputs(self):
+        return {}
+
+    def config(self):
+        me = self
+        from pyvc.models_tahoe import DStub
+
+        def maybe(I, a, kw):
+            r = I.call_value(a[0], list(a[1:]), kw)
+            return r if isinstance(r, DStub) else DStub("succeeded", r)
+        return {"overrides": {"log.msg": lambda I, a, kw: 1, "defer.maybeDeferred": maybe, "twisted.internet.defer.maybeDeferred": maybe,
+                              "eventual.eventually": lambda I, a, kw: me._events.append(("eventually", a[0])), "foolscap.eventual.eventually": lambda I, a, kw: me._events.append(("eventually", a[0]))}}
+
+    def run(self, I, a):
+        from pyvc.models_tahoe import DStub
+        from pyvc.interp import ModelFn
+        from allmydata.mutable.common import UncoordinatedWriteError
+        self._events = []
+        maps, onces = [], []
+
+        def update_servermap(I_, a_, k_):
+            d = DStub("pending")
+            maps.append((d, k_.get("mode")))
+            return d
+
+        def modify_once(I_, a_, k_):
+            onces.append(a_[1])
+            if len(onces) == 1:
+                return DStub("failed", failure_stub(UncoordinatedWriteError))
+            return DStub("succeeded", "upload-results")
+        v = SObj(self.module().MutableFileVersion, {})
+        v.fields["_update_servermap"] = stub("x", f=update_servermap).fields["f"]
+        v.fields["_modify_once"] = stub("x", f=modify_once).fields["f"]
+        backoffer = ModelFn("backoffer", lambda I_, a_, k_: DStub("succeeded", None))
+        d = I.call_value(self.target(I), [v, "modifier", backoffer, True], {})
+        fire_chain(I, maps[0][0], None)                 # first servermap update done -> first attempt fails -> retry starts
+        state_during_retry = d.state
+        n_maps_during = len(maps)
+        if len(maps) == 2:
+            res, _ = fire_chain(I, maps[1][0], None)    # the retry's servermap update done -> second attempt succeeds
+            mid = getattr(d, "_waiting_on", None)       # the back-off Deferred that was waiting for the retry
+            if mid is not None and mid.state == "waiting":
+                res, _ = fire_chain(I, mid, res, start=mid._next)
+            if d.state == "waiting":
+                fire_chain(I, d, res, start=d._next)
+        out = Outcome("return", d)
+        out.post = {"during": state_during_retry, "maps": maps, "onces": onces, "n_maps_during": n_maps_during}
+        return out
+
+    def ensures(self, I, a, out):
+        from allmydata.mutable.common import MODE_CHECK
+        p = out.post
+        return [("the-retry-is-started", z3.BoolVal(p["n_maps_during"] == 2 and p["maps"][1][1] == MODE_CHECK)),
+                ("the-operation-is-not-finished-while-its-retry-is-running", z3.BoolVal(p["during"] in ("waiting", "pending"))),
+                ("it-finishes-with-the-retrys-result", z3.BoolVal(out.value.state == "succeeded" and out.value.value == "upload-results" and p["onces"] == [True, False]))]
+
+    def canary(self, I, a, out):
+        return [("canary", z3.BoolVal(out.post["during"] == "succeeded"))]
+
+
+MUTABLE_CAPS = ("WriteableSSKFileURI", "ReadonlySSKFileURI", "WriteableMDMFFileURI", "ReadonlyMDMFFileURI",
+                "DirectoryURI", "ReadonlyDirectoryURI", "MDMFDirectoryURI", "ReadonlyMDMFDirectoryURI")
+
+
+def cap_string(kind):
+    from allmydata import uri
+    w, fp = b"w" * 16, b"f" * 32
+    base = {"WriteableSSKFileURI": uri.WriteableSSKFileURI(w, fp), "WriteableMDMFFileURI": uri.WriteableMDMFFileURI(w, fp)}
+    base["ReadonlySSKFileURI"] = base["WriteableSSKFileURI"].get_readonly()
+    base["ReadonlyMDMFFileURI"] = base["WriteableMDMFFileURI"].get_readonly()
+    base["DirectoryURI"] = uri.DirectoryURI(base["WriteableSSKFileURI"])
+    base["ReadonlyDirectoryURI"] = uri.ReadonlyDirectoryURI(base["ReadonlySSKFileURI"])
+    base["MDMFDirectoryURI"] = uri.MDMFDirectoryURI(base["WriteableMDMFFileURI"])
+    base["ReadonlyMDMFDirectoryURI"] = uri.ReadonlyMDMFDirectoryURI(base["ReadonlyMDMFFileURI"])
+    return base[kind].to_string()
+
+
+class SameCapSameNode(Spec):
+    """two lookups of the same mutable capability string give the SAME node object (hence one serializer)"""
+    file = "allmydata/nodemaker.py"
+    qualname = "NodeMaker.create_from_cap"
+    level = "B"
+    bound = "the 8 mutable capability kinds (SDMF/MDMF file and directory, read-write and read-only), given as write cap or as read cap"
+    cross_check = 0
+    raises = ()
+    canary_case = {"kind": "WriteableMDMFFileURI", "slot": "w"}
+
+    def inputs(self):
+        return {"kind": ChoiceK(list(MUTABLE_CAPS)), "slot": ChoiceK(["w", "r"])}
+
+    def all_cases(self):
+        return [{"kind": k, "slot": s} for k in MUTABLE_CAPS for s in ("w", "r")]
+
+    def config(self):
+        me = self
+
+        def mk_mutable(I, a, kw):
+            n = stub("mutable-file-node-%d" % len(me._built), is_mutable=lambda I_, a_, k_: True, get_storage_index=lambda I_, a_, k_: b"si")
+            me._built.append(n)
+            return n
+
+        def mk_dir(I, a, kw):
+            n = stub("dirnode-%d" % len(me._built), is_mutable=lambda I_, a_, k_: True, get_storage_index=lambda I_, a_, k_: b"si", filenode=a[1])
+            me._built.append(n)
+            return n
+        return {"overrides": {"NodeMaker._create_mutable": mk_mutable, "NodeMaker._create_dirnode": mk_dir}}
+
+    def run(self, I, a):
+        self._built = []
+        cap = cap_string(a["kind"])
+        nm = SObj(self.module().NodeMaker, {"_node_cache": {}, "blacklist": None})
+        args = [cap, None] if a["slot"] == "w" else [None, cap]
+        n1 = I.call_value(self.target(I), [nm] + args, {})
+        n2 = I.call_value(self.target(I), [nm] + args, {})
+        return (n1, n2)
+
+    def ensures(self, I, a, out):
+        n1, n2 = out.value
+        return [("the-same-capability-string-gives-the-same-node-object", z3.BoolVal(n1 is n2 and n1 is not None)),
+                ("a-mutable-node-is-built-once", z3.BoolVal(len([b for b in self._built if b is n1]) == 1))]
+
+    def canary(self, I, a, out):
+        return [("canary", z3.BoolVal(out.value[0] is not out.value[1]))]
+
+
 def contracts(tier):
-    return [Serializer("MutableFileNode"), Serializer("MutableFileVersion"), EntryPoints()] + [c for c in C16.contracts(tier) if type(c).__name__ == "NodeCache"]
+    return [Serializer("MutableFileNode"), Serializer("MutableFileVersion"), EntryPoints(), SameCapSameNode(), ModifyRetry()] + [c for c in C16.contracts(tier) if type(c).__name__ == "NodeCache"]
